@@ -480,7 +480,7 @@ def nontrivial(case, exp):
 def strata(cases, chunkings, full):
     """The (case, chunking) pairs that are never sampled out; the specification says which (field `must`, RoutinesMC.tla):
     searchsorted under every chunking with a border inside a run of equal values; digitize over decreasing bins
-    (thorough: under every chunking; quick: under one chunking per case, rotating, several blocks where there are any)."""
+    (under one chunking per case - thorough: four - rotating through the chunkings, several blocks where there are any)."""
     out, rot = [], 0
     for ci, c in enumerate(cases):
         must = c["e"].get("must")
@@ -496,12 +496,10 @@ def strata(cases, chunkings, full):
                 if cut & set(must):
                     out.append((ci, ch))
         else:
-            if full:
-                out += [(ci, ch) for ch in chs]
-            else:
-                multi = [ch for ch in chs if len(ch[0]) > 1] or chs
-                out.append((ci, multi[rot % len(multi)]))
-                rot += 1
+            multi = [ch for ch in chs if len(ch[0]) > 1] or chs
+            for k in range(min(4 if full else 1, len(multi))):
+                out.append((ci, multi[(rot + k) % len(multi)]))
+            rot += 1
     return out
 
 
